@@ -1,12 +1,18 @@
-import Qats.Model.SN
-import Qats.Lemmas.RealOps
-import Mathlib.Analysis.SpecialFunctions.Gamma.Basic
-import Mathlib.Analysis.SpecialFunctions.Gaussian.GaussianIntegral
-import Mathlib.Topology.Algebra.Order.Field
-import Mathlib.Tactic
+import Qats.Lemmas.SNOps
+import Qats.Lemmas.SNReal
+import Qats.Lemmas.SNWeibull
+import Mathlib.Tactic.Ring
+import Mathlib.Tactic.NormNum
+import Mathlib.Tactic.FieldSimp
+import Mathlib.Tactic.Linarith
+import Mathlib.Tactic.Positivity
 /-!
 Main lemmas behind the C05 / C06 property theorems (statements fixed by `Qats/Props/C05.lean`, `C06.lean`).
 All over ℝ: `TranscOps.log10 = Real.logb 10`, `TranscOps.rpow x y = x ^ y`, `TranscOps.gamma = Real.Gamma`.
+
+Structure: `SNOps.lean` restates each generated formula in Mathlib notation (the only place that depends on the
+shape of the generated terms), `SNReal.lean` is the real analysis in log coordinates; here the branch skeleton of
+`Qats/Model/SN.lean` is connected to both.
 -/
 namespace Qats.SN
 open Qats Qats.Gen
@@ -18,73 +24,220 @@ structure Valid (c : Curve ℝ) : Prop where
   nswitch_pos : 0 < c.nswitch
   thick_ok : ∀ te tr, c.thick = some (te, tr) → 0 ≤ te ∧ 0 < tr
 
+/-! ### the branch skeleton in log coordinates -/
+
+theorem curve_loga2_eq (c : Curve ℝ) (m2 : ℝ) : c.loga2 m2 = la2 c.loga1 c.m1 m2 c.nswitch := by
+  unfold Curve.loga2 la2; exact loga2_eq _ _ _ _
+
+theorem curve_sswitch_eq (c : Curve ℝ) : c.sswitch = (10 : ℝ) ^ lsw c.loga1 c.m1 c.nswitch := by
+  unfold Curve.sswitch lsw; exact sswitch_eq _ _ _
+
+theorem sswitch_le_iff (c : Curve ℝ) {σ : ℝ} (hσ : 0 < σ) :
+    c.sswitch ≤ σ ↔ lsw c.loga1 c.m1 c.nswitch ≤ Real.logb 10 σ := by
+  rw [curve_sswitch_eq, ten_rpow_le_iff_le_logb hσ]
+
+theorem nWith_single (c : Curve ℝ) (hm : c.m2 = none) (tc s : ℝ) :
+    c.nWith tc s = (10 : ℝ) ^ (c.loga1 - c.m1 * Real.logb 10 (s * tc)) := by
+  unfold Curve.nWith; simp only [hm]; exact n_single_eq _ _ _ _
+
+theorem nWith_bilinear (c : Curve ℝ) {m2 : ℝ} (hm : c.m2 = some m2) {tc s : ℝ} (hσ : 0 < s * tc) :
+    c.nWith tc s = (10 : ℝ) ^ expo c.loga1 c.m1 m2 c.nswitch (Real.logb 10 (s * tc)) := by
+  unfold Curve.nWith expo
+  simp only [hm, mask_eq, decide_eq_true_eq, sswitch_le_iff c hσ, n_upper_eq, n_lower_eq, curve_loga2_eq]
+  split_ifs <;> rfl
+
+theorem strengthWith_single (c : Curve ℝ) (hm : c.m2 = none) (tc n : ℝ) :
+    c.strengthWith tc n = 1 / tc * (10 : ℝ) ^ ((c.loga1 - Real.logb 10 n) / c.m1) := by
+  unfold Curve.strengthWith; simp only [hm]; exact strength_eq _ _ _ _
+
+theorem strengthWith_bilinear (c : Curve ℝ) {m2 : ℝ} (hm : c.m2 = some m2) (hnsw : 0 < c.nswitch) (tc : ℝ) {n : ℝ}
+    (hn : 0 < n) :
+    c.strengthWith tc n = 1 / tc * (10 : ℝ) ^ sexpo c.loga1 c.m1 m2 c.nswitch (Real.logb 10 n) := by
+  unfold Curve.strengthWith sexpo
+  simp only [hm, strength_mask_eq, decide_eq_true_eq, strength_eq, curve_loga2_eq,
+    Real.logb_le_logb (b := 10) (by norm_num) hn hnsw]
+  split_ifs <;> rfl
+
+/-- `s·tc` recovered from a strength value. -/
+theorem strength_mul_tc {tc : ℝ} (htc : 0 < tc) (x : ℝ) : 1 / tc * (10 : ℝ) ^ x * tc = (10 : ℝ) ^ x := by
+  field_simp
+
+/-! ### C05 -/
+
+set_option linter.unusedVariables false in
 /-- Both branches of a bilinear curve give `nswitch` where the (thickness-corrected) stress equals `sswitch`. -/
 theorem n_at_switch' (c : Curve ℝ) (hv : Valid c) (m2 : ℝ) (tc s : ℝ) (htc : 0 < tc)
     (hs : s * tc = c.sswitch) :
     sn_n_upper c.loga1 c.m1 s tc = c.nswitch ∧ sn_n_lower (c.loga2 m2) m2 s tc = c.nswitch := by
-  sorry
+  have hm1 := hv.m1_pos.ne'
+  constructor
+  · rw [n_upper_eq, hs, curve_sswitch_eq, logb_ten_rpow, expo_at_switch_upper hm1, ten_rpow_logb hv.nswitch_pos]
+  · rw [n_lower_eq, hs, curve_sswitch_eq, logb_ten_rpow, curve_loga2_eq, expo_at_switch_lower hm1,
+      ten_rpow_logb hv.nswitch_pos]
 
 theorem sswitch_pos' (c : Curve ℝ) : 0 < c.sswitch := by
-  sorry
+  rw [curve_sswitch_eq]; exact ten_rpow_pos _
 
 theorem nWith_pos' (c : Curve ℝ) (tc s : ℝ) : 0 < c.nWith tc s := by
-  sorry
+  unfold Curve.nWith
+  split
+  · rw [n_single_eq]; exact ten_rpow_pos _
+  · split_ifs
+    · rw [n_upper_eq]; exact ten_rpow_pos _
+    · rw [n_lower_eq]; exact ten_rpow_pos _
+
+theorem continuousOn_logb_mul (tc : ℝ) (htc : 0 < tc) :
+    ContinuousOn (fun s : ℝ => Real.logb 10 (s * tc)) (Set.Ioi 0) :=
+  ContinuousOn.logb (continuousOn_id.mul continuousOn_const) fun _ hs => (mul_pos hs htc).ne'
 
 theorem nWith_continuousOn' (c : Curve ℝ) (hv : Valid c) (tc : ℝ) (htc : 0 < tc) :
     ContinuousOn (fun s => c.nWith tc s) (Set.Ioi 0) := by
-  sorry
+  have hL := continuousOn_logb_mul tc htc
+  cases hm : c.m2 with
+  | none =>
+    simp only [nWith_single c hm]
+    exact continuous_ten_rpow.comp_continuousOn (continuousOn_const.sub (continuousOn_const.mul hL))
+  | some m2 =>
+    have h := continuous_ten_rpow.comp_continuousOn
+      ((expo_continuous (loga1 := c.loga1) (m2 := m2) (nsw := c.nswitch) hv.m1_pos.ne').comp_continuousOn hL)
+    exact h.congr fun s hs => nWith_bilinear c hm (mul_pos hs htc)
 
 theorem nWith_strictAntiOn' (c : Curve ℝ) (hv : Valid c) (tc : ℝ) (htc : 0 < tc) :
     StrictAntiOn (fun s => c.nWith tc s) (Set.Ioi 0) := by
-  sorry
+  intro a ha b hb hab
+  have hL : Real.logb 10 (a * tc) < Real.logb 10 (b * tc) :=
+    Real.logb_lt_logb (by norm_num) (mul_pos ha htc) (mul_lt_mul_of_pos_right hab htc)
+  cases hm : c.m2 with
+  | none =>
+    simp only [nWith_single c hm, ten_rpow_lt_iff]
+    have := mul_lt_mul_of_pos_left hL hv.m1_pos
+    linarith
+  | some m2 =>
+    simp only [nWith_bilinear c hm (mul_pos ha htc), nWith_bilinear c hm (mul_pos hb htc), ten_rpow_lt_iff]
+    exact expo_strictAnti hv.m1_pos (hv.m2_pos m2 hm) hL
 
 theorem switch_iff' (c : Curve ℝ) (hv : Valid c) (m2 : ℝ) (hm : c.m2 = some m2) (tc s : ℝ) (htc : 0 < tc)
     (hs : 0 < s) : c.sswitch ≤ s * tc ↔ c.nWith tc s ≤ c.nswitch := by
-  sorry
+  have hσ := mul_pos hs htc
+  rw [nWith_bilinear c hm hσ, sswitch_le_iff c hσ, ten_rpow_le_iff_le_logb hv.nswitch_pos,
+    expo_le_iff hv.m1_pos (hv.m2_pos m2 hm)]
 
 theorem strength_n' (c : Curve ℝ) (hv : Valid c) (tc s : ℝ) (htc : 0 < tc) (hs : 0 < s) :
     c.strengthWith tc (c.nWith tc s) = s := by
-  sorry
+  have hσ := mul_pos hs htc
+  have hfin : 1 / tc * (10 : ℝ) ^ Real.logb 10 (s * tc) = s := by
+    rw [ten_rpow_logb hσ]; field_simp
+  cases hm : c.m2 with
+  | none =>
+    rw [strengthWith_single c hm, nWith_single c hm, logb_ten_rpow, sub_sub_cancel,
+      mul_div_cancel_left₀ _ hv.m1_pos.ne', hfin]
+  | some m2 =>
+    rw [strengthWith_bilinear c hm hv.nswitch_pos tc (nWith_pos' c tc s), nWith_bilinear c hm hσ, logb_ten_rpow,
+      sexpo_expo hv.m1_pos (hv.m2_pos m2 hm), hfin]
 
 theorem n_strength' (c : Curve ℝ) (hv : Valid c) (tc n : ℝ) (htc : 0 < tc) (hn : 0 < n) :
     c.nWith tc (c.strengthWith tc n) = n := by
-  sorry
+  cases hm : c.m2 with
+  | none =>
+    rw [strengthWith_single c hm, nWith_single c hm, strength_mul_tc htc, logb_ten_rpow,
+      mul_div_cancel₀ _ hv.m1_pos.ne', sub_sub_cancel, ten_rpow_logb hn]
+  | some m2 =>
+    rw [strengthWith_bilinear c hm hv.nswitch_pos tc hn]
+    have hσ : 0 < 1 / tc * (10 : ℝ) ^ sexpo c.loga1 c.m1 m2 c.nswitch (Real.logb 10 n) * tc := by
+      rw [strength_mul_tc htc]; exact ten_rpow_pos _
+    rw [nWith_bilinear c hm hσ, strength_mul_tc htc, logb_ten_rpow, expo_sexpo hv.m1_pos (hv.m2_pos m2 hm),
+      ten_rpow_logb hn]
+
+/-- `tcorr` in Mathlib notation. -/
+theorem tcorr_eq (te tr t : ℝ) : tcorr te tr t = ((if t < tr then tr else t) / tr) ^ te := by
+  unfold tcorr
+  simp only [tcorr_mask_eq, tcorr_formula_eq, decide_eq_true_eq]
 
 theorem tcorr_le_ref' (te tr t : ℝ) (htr : 0 < tr) (ht : t ≤ tr) : tcorr te tr t = 1 := by
-  sorry
+  rw [tcorr_eq]
+  have h : (if t < tr then tr else t) = tr := by
+    split_ifs with h
+    · rfl
+    · exact le_antisymm ht (not_lt.1 h)
+  rw [h, div_self htr.ne', Real.one_rpow]
 
 theorem tcorr_gt_ref' (te tr t : ℝ) (ht : tr < t) : tcorr te tr t = (t / tr) ^ te := by
-  sorry
+  rw [tcorr_eq, if_neg (not_lt.2 ht.le)]
 
 theorem tcorr_pos' (te tr t : ℝ) (htr : 0 < tr) (ht : 0 < t) : 0 < tcorr te tr t := by
-  sorry
+  rw [tcorr_eq]
+  apply Real.rpow_pos_of_pos
+  split_ifs
+  · exact div_pos htr htr
+  · exact div_pos ht htr
 
 theorem nWith_scaling' (c : Curve ℝ) (tc s : ℝ) : c.nWith tc s = c.nWith 1 (s * tc) := by
-  sorry
+  unfold Curve.nWith
+  simp only [mask_eq, n_single_eq, n_upper_eq, n_lower_eq, mul_one]
+
+theorem mapM_some_eq {α β : Type} (f : α → β) (l : List α) : (l.mapM fun a => some (f a)) = some (l.map f) := by
+  induction l with
+  | nil => rfl
+  | cons a l ih => simp only [List.mapM_cons, ih, List.map_cons]; rfl
 
 theorem n_array' (c : Curve ℝ) (s : List ℝ) (t : Option ℝ) :
     c.nArray s t = (c.tfactor t).bind fun _ => s.mapM fun si => c.n si t := by
-  sorry
+  unfold Curve.nArray Curve.n
+  cases c.tfactor t with
+  | none => rfl
+  | some tc =>
+    simp only [Option.map_some, Option.bind_some]
+    exact (mapM_some_eq (c.nWith tc) s).symm
 
 /-! ### C06 -/
+
+theorem foldl_add_eq_sum (l : List ℝ) (a : ℝ) : l.foldl (· + ·) a = a + l.sum := by
+  induction l generalizing a with
+  | nil => simp
+  | cons x l ih => rw [List.foldl_cons, ih, List.sum_cons, add_assoc]
+
+/-- `minersum` as a `List.sum`. -/
+theorem minersum_eq (c : Curve ℝ) (td scf : ℝ) (th : Option ℝ) (h : List (ℝ × ℝ)) :
+    minersum c td scf th h =
+      (c.tfactor th).map fun tc => (h.map fun p => td * p.2 / c.nWith tc (p.1 * scf)).sum := by
+  unfold minersum
+  congr 1
+  funext tc
+  rw [foldl_add_eq_sum, zero_add]
 
 theorem minersum_append' (c : Curve ℝ) (td scf : ℝ) (th : Option ℝ) (h1 h2 : List (ℝ × ℝ)) (d1 d2 : ℝ)
     (e1 : minersum c td scf th h1 = some d1) (e2 : minersum c td scf th h2 = some d2) :
     minersum c td scf th (h1 ++ h2) = some (d1 + d2) := by
-  sorry
+  rw [minersum_eq] at e1 e2 ⊢
+  cases htf : c.tfactor th with
+  | none => rw [htf] at e1; simp at e1
+  | some tc =>
+    rw [htf, Option.map_some, Option.some.injEq] at e1 e2
+    rw [Option.map_some, List.map_append, List.sum_append, e1, e2]
 
 theorem minersum_perm' (c : Curve ℝ) (td scf : ℝ) (th : Option ℝ) (h1 h2 : List (ℝ × ℝ)) (hp : h1.Perm h2) :
     minersum c td scf th h1 = minersum c td scf th h2 := by
-  sorry
+  rw [minersum_eq, minersum_eq]
+  congr 1
+  funext tc
+  exact (hp.map _).sum_eq
 
 theorem minersum_linear' (c : Curve ℝ) (td scf k l : ℝ) (th : Option ℝ) (h : List (ℝ × ℝ)) (d : ℝ)
     (e : minersum c td scf th h = some d) :
     minersum c (l * td) scf th (h.map fun p => (p.1, k * p.2)) = some (l * k * d) := by
-  sorry
+  rw [minersum_eq] at e ⊢
+  cases htf : c.tfactor th with
+  | none => rw [htf] at e; simp at e
+  | some tc =>
+    rw [htf, Option.map_some, Option.some.injEq] at e
+    rw [Option.map_some, ← e, List.map_map, ← List.sum_map_mul_left]
+    refine congrArg (fun x : List ℝ => some x.sum) (List.map_congr_left fun p _ => ?_)
+    simp only [Function.comp_apply]
+    ring
 
 theorem minersum_scf' (c : Curve ℝ) (td scf : ℝ) (th : Option ℝ) (h : List (ℝ × ℝ)) :
     minersum c td scf th h = minersum c td 1 th (h.map fun p => (p.1 * scf, p.2)) := by
-  sorry
+  simp only [minersum_eq, List.map_map, Function.comp_def, mul_one]
 
 /-- Weibull density of the stress ranges, scale `q`, shape `h`. -/
 noncomputable def weibullPdf (q h s : ℝ) : ℝ := h / q * (s / q) ^ (h - 1) * Real.exp (-(s / q) ^ h)
@@ -92,19 +245,27 @@ noncomputable def weibullPdf (q h s : ℝ) : ℝ := h / q * (s / q) ^ (h - 1) * 
 /-- Single-slope closed form = expected damage: `v0·td·∫₀^∞ f_W(s)/N(s) ds` with `N(s) = a1·s^(-m1)`. -/
 theorem weibull_single_closed_form' (a1 h m1 q td v0 : ℝ) (ha : 0 < a1) (hh : 0 < h) (hm : 0 < m1) (hq : 0 < q) :
     v0 * td * ∫ s in Set.Ioi (0 : ℝ), weibullPdf q h s / (a1 * s ^ (-m1)) = sn_mw_single a1 h m1 q td v0 := by
-  sorry
+  simp only [weibullPdf]
+  rw [mw_single_eq, weibull_integral ha hh hm hq]
+  ring
 
 theorem gh_zero_mean' (r uts : ℝ) (hu : uts ≠ 0) : gh_corrected (0 : ℝ) r uts = r := by
-  sorry
+  rw [gh_eq, sub_zero, div_self hu, mul_one]
 
+set_option linter.unusedVariables false in
 theorem gh_formula' (m r uts : ℝ) (hu : uts - m ≠ 0) : gh_corrected m r uts = r * uts / (uts - m) := by
-  sorry
+  rw [gh_eq, mul_div_assoc]
 
 theorem gh_tensile_enlarges' (m r uts : ℝ) (hm : 0 < m) (hmu : m < uts) (hr : 0 < r) : r < gh_corrected m r uts := by
-  sorry
+  rw [gh_eq]
+  have hd : 0 < uts - m := sub_pos.2 hmu
+  have h1 : 1 < uts / (uts - m) := by rw [lt_div_iff₀ hd]; linarith
+  calc r = r * 1 := (mul_one r).symm
+    _ < r * (uts / (uts - m)) := mul_lt_mul_of_pos_left h1 hr
 
+set_option linter.unusedVariables false in
 theorem gh_unit_free' (k m r uts : ℝ) (hk : 0 < k) (hu : uts - m ≠ 0) :
     gh_corrected (k * m) (k * r) (k * uts) = k * gh_corrected m r uts := by
-  sorry
+  rw [gh_eq, gh_eq, ← mul_sub, mul_div_mul_left _ _ hk.ne', mul_assoc]
 
 end Qats.SN
